@@ -295,6 +295,7 @@ func storesToCell(cell *ssa.Alloc) []*ssa.Store {
 type OriginOpts struct {
 	Depth       int  // how many static module callees' returns to descend into
 	Dynamic     bool // also descend into interface/dynamic calls when every call-graph callee is a module function
+	StopAt      func(callee *ssa.Function) bool // do not descend into these callees: their call is a leaf
 	ThroughCall func(c *ssa.Call) []ssa.Value // optional: treat a call as a pass-through of these operands
 }
 
@@ -422,6 +423,9 @@ func (p *Prog) descendable(c *ssa.Call, opt OriginOpts, depth int) []*ssa.Functi
 		return nil
 	}
 	if callee := c.Call.StaticCallee(); callee != nil {
+		if opt.StopAt != nil && opt.StopAt(callee) {
+			return nil
+		}
 		if inModule(callee) && len(callee.Blocks) > 0 {
 			return []*ssa.Function{callee}
 		}
